@@ -15,7 +15,7 @@ ID = "C10"
 RULE = ("plane: for EVERY erase-block size eb in 1..512 EVERY first-slot payload length in [0, 2*eb+2) followed by a "
         "second slot (all residues of the padding rule twice, incl. residues 0 and 1 and the 23/24 switch), through "
         "the CachePartition class; boundary: eb = 2^k up to 65536 with lengths within +-30 of every residue boundary, "
-        "the 0xFFFF padding limit and the rejection beyond it; URI lengths {1,23,24,255,256,300}; random sequences of "
+        "the 0xFFFF padding limit and the rejection beyond it; URI lengths {1,23,24,255,256,300} in ASCII and with multi-byte characters (bytes != characters); random sequences of "
         "<= 6 slots; sampled file routes from_payloads / merge (2-4 caches produced with different eb) / "
         "from_envelope via cmd_cache_create.main, CLI in-process and real CLI. distinct = (eb, slot lengths, uri "
         "lengths) digest; non-trivial = at least two slots or a padding entry")
@@ -23,9 +23,10 @@ MIN_DISTINCT = {"quick": 20000, "thorough": 200000}
 ASSUMPTIONS = ["empty cache URIs are outside the language (an empty key is the padding marker)",
                "erase-block sizes for which the padding does not fit the 0xFFFF limit may be rejected (counted)"]
 EXHAUSTIVE = "the plane eb in 1..512 x first-slot length in [0, 2*eb+2) with a second slot"
-PLANE_MAX = 512
+PLANE_MAX = 512            # the plane of the property; the thorough tier continues to 2048 (PLANE_MAX_T)
+PLANE_MAX_T = 2048
 CAP = {"quick": 45, "thorough": 800}
-NRAND = {"quick": 6000, "thorough": 200000}
+NRAND = {"quick": 6000, "thorough": 1500000}
 NFILE = {"quick": 700, "thorough": 12000}
 
 
@@ -114,7 +115,13 @@ def check(data, eb, supplied):
     return v, npad
 
 
-def uri_of(n, i):
+def uri_of(n, i, nonascii=False):
+    """a URI of exactly n UTF-8 bytes; with nonascii=True it contains multi-byte characters (bytes != characters)"""
+    if nonascii and n >= 4:
+        base = f"#{i}"
+        k = (n - len(base)) // 2
+        s = base + "é" * k
+        return s + "x" * (n - len(s.encode("utf-8")))
     base = f"#u{i}_"
     return base + "x" * max(0, n - len(base)) if n > len(base) else ("abcdefgh"[i] * n if n else "")
 
@@ -168,10 +175,14 @@ def payload(n, salt):
 
 
 def plane(rec, shard, nshards):
-    for eb in range(1 + shard, PLANE_MAX + 1, nshards):
+    top = PLANE_MAX_T if rec.tier == "thorough" else PLANE_MAX
+    for eb in range(1 + shard, top + 1, nshards):
         for ln in range(0, 2 * eb + 2):
             one(rec, eb, [("#a", payload(ln, eb)), ("#b", payload(3, 1))], "plane")
-        rec.count("plane-eb-values")
+        if eb <= PLANE_MAX:
+            rec.count("plane-eb-values")
+        else:
+            rec.count("plane-eb-values-beyond-512")
         if rec.out_of_time():
             rec.inconclusive.append(f"exhaustive plane not finished within the wall-clock cap (stopped at eb={eb})")
             return
@@ -201,6 +212,8 @@ def boundaries(rec, shard, nshards):
                 if k % nshards != shard:
                     continue
                 one(rec, eb, [(uri_of(ul, 0), payload(max(0, ln), 5)), (uri_of(ul, 1), payload(1, 9))], "uri-length")
+                one(rec, eb, [(uri_of(ul, 0, True), payload(max(0, ln), 5)), (uri_of(ul, 1, True), payload(1, 9))],
+                    "uri-length-non-ascii")
 
 
 def sequences(rec, shard, nshards):
@@ -214,7 +227,8 @@ def sequences(rec, shard, nshards):
         slots = []
         for i in range(r.randrange(1, 7)):
             ln = r.choice([0, 1, 2, eb - 1, eb, eb + 1, r.randrange(0, 3 * eb + 3), r.randrange(0, 300)])
-            slots.append((uri_of(r.choice([1, 2, 5, 10, 23, 24, 30, 255, 256]), i) + str(i), payload(max(0, ln), i)))
+            slots.append((uri_of(r.choice([1, 2, 5, 10, 23, 24, 30, 255, 256]), i, r.random() < 0.2) + str(i)
+                          + r.choice(["", "", "", "µ", "日本", "😀"]), payload(max(0, ln), i)))
         one(rec, eb, slots, "sequence", {"kind": "sequence", "n": n, "seed": rec.seed})
 
 
@@ -258,7 +272,8 @@ def file_case(rec, n):
         out = []
         for i in range(cnt):
             ln = r.choice([0, 1, eb - 1, eb, eb + 1, r.randrange(0, 2000)])
-            out.append((f"#{tag}{i}_" + "y" * r.choice([0, 1, 15, 16, 17, 250]), r.randbytes(max(0, ln))))
+            out.append((f"#{tag}{i}_" + "y" * r.choice([0, 1, 15, 16, 17, 250]) + r.choice(["", "", "é", "日本語", "µ" * 12]),
+                        r.randbytes(max(0, ln))))
         return out
 
     rec.count("file:" + kind)
@@ -369,7 +384,8 @@ def replay(rec, case):
         slots = []
         for i in range(r.randrange(1, 7)):
             ln = r.choice([0, 1, 2, eb - 1, eb, eb + 1, r.randrange(0, 3 * eb + 3), r.randrange(0, 300)])
-            slots.append((uri_of(r.choice([1, 2, 5, 10, 23, 24, 30, 255, 256]), i) + str(i), payload(max(0, ln), i)))
+            slots.append((uri_of(r.choice([1, 2, 5, 10, 23, 24, 30, 255, 256]), i, r.random() < 0.2) + str(i)
+                          + r.choice(["", "", "", "µ", "日本", "😀"]), payload(max(0, ln), i)))
         one(rec, eb, slots, "sequence", case)
     else:
         slots = [(u, payload(n, 1)) for u, n in zip(case["uris"], case["lens"])]
@@ -381,7 +397,7 @@ def finish(merged, tier, seed):
     if cnt.get("plane-eb-values", 0) != PLANE_MAX:
         merged["inconclusive"].append(f"plane covered {cnt.get('plane-eb-values', 0)} of {PLANE_MAX} erase-block sizes")
     for k in ("file:from_payloads", "file:merge", "file:duplicate-uri", "file:merge-with-duplicate", "kind:boundary",
-              "kind:uri-length", "kind:sequence"):
+              "kind:uri-length", "kind:uri-length-non-ascii", "kind:sequence"):
         if cnt.get(k, 0) < 5:
             merged["inconclusive"].append(f"class {k} observed fewer than 5 times")
     return {"plane_cases": cnt.get("kind:plane", 0)}
